@@ -570,13 +570,21 @@ func treeDocs(c *Ctx) (pool [][]byte, cl []string) {
 			}
 		}
 	}
-	keys := []string{`"a"`, `"a"`, `"a\u0000"`, `"A"`, `"𝄞"`, `"𝄞"`, `""`, `"a\tb"`, `"a\u0009b"`, `"k\\"`, `"k\""`}
+	// keys: duplicates in several spellings, and keys that are confusable when raw and decoded forms are mixed up (the raw
+	// text of one is the decoding of the other)
+	keys := []string{`"a"`, `"a"`, `"a\u0000"`, `"A"`, `"𝄞"`, `"𝄞"`, `""`, `"a\tb"`, `"a\u0009b"`, `"k\\"`, `"k\""`,
+		`"a\\tb"`, `"a\\u0009b"`, `"\u0041"`, `"\\u0041"`, `"k\\\\"`, `"\ud834\udd1e"`}
 	vals := []string{`1`, `{}`, `[]`, `{"x":{"y":[1,2]}}`, `"s"`, `null`, `[{"a":1}]`, `1e3`, `-0`}
 	for _, k1 := range keys {
 		for _, k2 := range keys {
 			for _, v := range vals {
 				add([]byte(fmt.Sprintf(`{%s:%s,%s:2}`, k1, v, k2)), "dup-keys")
 				add([]byte(fmt.Sprintf(`[{%s:1},{"w":{%s:%s}, %s :3}]`, k1, k2, v, k1)), "dup-keys")
+				if v == `1` || v == `{}` || v == `[{"a":1}]` {
+					// the same member position in sibling objects read by one (pooled) reader
+					add([]byte(fmt.Sprintf(`[{%s:%s},{%s:2}]`, k1, v, k2)), "dup-keys")
+					add([]byte(fmt.Sprintf(`{"p":{"z":0,%s:%s},"q":{"z":0,%s:2}}`, k1, v, k2)), "dup-keys")
+				}
 			}
 		}
 	}
